@@ -45,6 +45,9 @@ type c09Spec struct {
 	FirstCut   c09Cut   `json:"first_cut"`
 	Reconnects []string `json:"reconnects"` // ok | neterr | 500 | 502 | 503 | 404 | 400 | 405
 	Cuts       []c09Cut `json:"cuts"`       // cut applied to the i-th "ok" reconnect body
+	// PausesS: the i-th "ok" reconnect is answered 200 at once, but the server has nothing to say on the resumed
+	// stream for this many seconds (a slow tool); then the body is served as scripted
+	PausesS []int `json:"pauses_s,omitempty"`
 }
 
 func genC09(r *vh.Rand) c09Spec {
@@ -90,6 +93,12 @@ func genC09(r *vh.Rand) c09Spec {
 		s.Reconnects = append(s.Reconnects, "ok")
 		s.Cuts = append(s.Cuts, c09Cut{At: -1})
 	}
+	if r.Chance(1, 5) {
+		s.PausesS = make([]int, len(s.Reconnects))
+		for i, n := 0, r.Range(1, 2); i < n; i++ {
+			s.PausesS[r.Intn(len(s.PausesS))] = []int{45, 100, 400}[r.Intn(3)]
+		}
+	}
 	return s
 }
 
@@ -117,13 +126,35 @@ func TestVerifC09(t *testing.T) {
 
 // c09Body serves text[:cut] and then ends with an error or a clean EOF.
 type c09Body struct {
-	r    *bytes.Reader
-	kind string
-	done bool
+	r      *bytes.Reader
+	kind   string
+	done   bool
+	pause  time.Duration   // nothing arrives for this long
+	ctx    context.Context // the request's context: a read it ends reports its error, as net/http does
+	closed chan struct{}
+	once   sync.Once
+	onRead func([]byte) // bytes actually handed to the client
 }
 
 func (b *c09Body) Read(p []byte) (int, error) {
+	if b.pause > 0 {
+		d := b.pause
+		b.pause = 0
+		t := time.NewTimer(d)
+		select {
+		case <-t.C:
+		case <-b.ctx.Done():
+			t.Stop()
+			return 0, b.ctx.Err()
+		case <-b.closed:
+			t.Stop()
+			return 0, errors.New("verif: read on closed body")
+		}
+	}
 	n, err := b.r.Read(p)
+	if n > 0 && b.onRead != nil {
+		b.onRead(p[:n])
+	}
 	if err == io.EOF {
 		if b.kind == "error" {
 			return n, errors.New("verif: connection reset by peer")
@@ -132,7 +163,12 @@ func (b *c09Body) Read(p []byte) (int, error) {
 	}
 	return n, err
 }
-func (b *c09Body) Close() error { return nil }
+func (b *c09Body) Close() error {
+	if b.closed != nil {
+		b.once.Do(func() { close(b.closed) })
+	}
+	return nil
+}
 
 type c09Server struct {
 	c       *vh.Case
@@ -208,7 +244,7 @@ func (s *c09Server) build(id json.RawMessage, tok any) {
 	add("message", fmt.Sprintf(`{"jsonrpc":"2.0","id":%s,"result":{"content":[{"type":"text","text":"the-real-response"}]}}`, id))
 }
 
-func (s *c09Server) serve(from int, cut c09Cut) io.ReadCloser {
+func (s *c09Server) serve(ctx context.Context, from int, cut c09Cut, pause time.Duration) io.ReadCloser {
 	full := strings.Join(s.text[from:], "")
 	b := []byte(full)
 	kind := "eof"
@@ -216,9 +252,15 @@ func (s *c09Server) serve(from int, cut c09Cut) io.ReadCloser {
 		b = b[:cut.At]
 		kind = cut.Kind
 	}
-	s.served = append(s.served, b)
-	s.c.Log.Add("body-served", "from", from, "bytes", len(b), "of", len(full), "end", kind)
-	return &c09Body{r: bytes.NewReader(b), kind: kind}
+	// served[bi] grows as the client actually reads (a body abandoned during a pause was not received)
+	bi := len(s.served)
+	s.served = append(s.served, []byte{})
+	s.c.Log.Add("body-served", "from", from, "bytes", len(b), "of", len(full), "end", kind, "pause_s", int(pause/time.Second))
+	return &c09Body{r: bytes.NewReader(b), kind: kind, pause: pause, ctx: ctx, closed: make(chan struct{}), onRead: func(p []byte) {
+		s.mu.Lock()
+		s.served[bi] = append(s.served[bi], p...)
+		s.mu.Unlock()
+	}}
 }
 
 func (s *c09Server) RoundTrip(req *http.Request) (*http.Response, error) {
@@ -292,8 +334,12 @@ func (s *c09Server) RoundTrip(req *http.Request) (*http.Response, error) {
 		if s.nOK < len(s.spec.Cuts) {
 			cut = s.spec.Cuts[s.nOK]
 		}
+		var pause time.Duration
+		if s.nOK < len(s.spec.PausesS) {
+			pause = time.Duration(s.spec.PausesS[s.nOK]) * time.Second
+		}
 		s.nOK++
-		return s.resp(req, 200, s.ctype(), s.serve(from, cut), nil), nil
+		return s.resp(req, 200, s.ctype(), s.serve(req.Context(), from, cut, pause), nil), nil
 	}
 	body, _ := io.ReadAll(req.Body)
 	var m struct {
@@ -309,7 +355,7 @@ func (s *c09Server) RoundTrip(req *http.Request) (*http.Response, error) {
 		return s.resp(req, 200, "application/json", io.NopCloser(strings.NewReader(fmt.Sprintf(`{"jsonrpc":"2.0","id":%s,"result":%s}`, m.ID, vhm.InitializeResultJSON("2025-11-25")))), map[string]string{"Mcp-Session-Id": "sess-1"}), nil
 	case m.Method == "tools/call":
 		s.build(m.ID, m.Params.Meta["progressToken"])
-		return s.resp(req, 200, s.ctype(), s.serve(0, s.spec.FirstCut), nil), nil
+		return s.resp(req, 200, s.ctype(), s.serve(req.Context(), 0, s.spec.FirstCut, 0), nil), nil
 	case len(m.ID) == 0:
 		return s.resp(req, 202, "", http.NoBody, nil), nil
 	}
